@@ -48,6 +48,7 @@ pub fn profile(attrs: bool) -> Profile {
     p.workgroup = 0;
     p.unused_structs = (0, 0);
     p.nonascii = 0;
+    p.keyword_names = 1;
     p
 }
 
